@@ -63,7 +63,8 @@ TVReset == /\ l <= Len(Rec) /\ Rec[l].ev = "reset"
            /\ cur' = Rec[l].id /\ l' = l + 1 /\ UNCHANGED <<viol, judged>>
 TVStep == /\ l <= Len(Rec) /\ Rec[l].ev = "step"
           /\ LET e == Rec[l] IN
-             IF e.op \in {"negotiate", "set_vring_kick", "kick"}
+             \* (add_mem_reg / reconnect: the refused update of the prefix and the new connection after it -- C13 judges those)
+             IF e.op \in {"negotiate", "set_vring_kick", "kick", "add_mem_reg", "reconnect"}
              THEN /\ s' = IF e.op = "negotiate" THEN [s EXCEPT !.acked = ToSet(e.letter.feats), !.apf = ToSet(e.letter.pf), !.featuresSet = TRUE,
                                                                 !.eventIdx = EVENT_IDX \in ToSet(e.letter.feats)] ELSE s
                   /\ UNCHANGED <<memsel, addr, viol, judged, dead, stopped>>
